@@ -350,6 +350,15 @@ ParseObjStm(sv, vb) ==
                   THEN [ok |-> FALSE, objs |-> <<>>]
                   ELSE [ok |-> TRUE, objs |-> [i \in 1..n |-> [num |-> num(i), val |-> its[at(i)].val]]]
 
+\* N and First of an object stream dictionary may be indirect references (7.3.10: any value may be; 7.5.7 forbids
+\* nothing here).  They are resolved through the plainly stored objects, newest definition first.
+ResolveOS(sv, allobjs) ==
+    LET res(o) == IF o.k # "ref" THEN o
+                  ELSE LET li == SelectLastInSeq(allobjs, LAMBDA q : q.num = o.v /\ q.gen = o.w)
+                       IN IF li = 0 THEN o ELSE allobjs[li].val
+    IN IF sv.k # "stream" THEN sv
+       ELSE [sv EXCEPT !.v = [key \in DOMAIN sv.v |-> IF key \in {NameN, NameFirst} THEN res(sv.v[key]) ELSE sv.v[key]]]
+
 -----------------------------------------------------------------------------
 (* The whole file *)
 
@@ -394,9 +403,9 @@ RdFileV(bytes, vb) ==
               compOk(r, e) ==
                   LET ci == containerOf(r, e.f2) IN
                   /\ ci # 0 /\ fixed1[ci].ok /\ fixed1[ci].val.k = "stream"
-                  /\ LET po == ParseObjStm(fixed1[ci].val, vb) IN
+                  /\ LET po == ParseObjStm(ResolveOS(fixed1[ci].val, allobjs), vb) IN
                         po.ok /\ e.f3 + 1 <= Len(po.objs) /\ po.objs[e.f3 + 1].num = e.num
-              compVal(r, e) == ParseObjStm(fixed1[containerOf(r, e.f2)].val, vb).objs[e.f3 + 1].val
+              compVal(r, e) == ParseObjStm(ResolveOS(fixed1[containerOf(r, e.f2)].val, allobjs), vb).objs[e.f3 + 1].val
               badcomp == \E r \in 1..Len(revs) : \E j \in 1..Len(chk[r].comp) : ~compOk(r, chk[r].comp[j])
               \* stage 2: a stream Length may also be held by an integer stored in an object stream (newest one)
               compInt(num) ==
